@@ -87,6 +87,9 @@ Definition check_case (c : case) : bool :=
   | CTable t => bytes_eqb dispatch_table t
   end.
 
+(* a 2-4 byte unit (one multi-byte UTF-8 character) repeated n times *)
+Definition rpb (u : bytes) (n : N) : bytes := concat (repeat u (N.to_nat n)).
+
 (* {0: None, 1: None, ..., n-1: None} *)
 Fixpoint intmap_from (k : nat) (i : Z) : list (value * value) :=
   match k with O => [] | S k' => (Int i, Nil) :: intmap_from k' (i + 1)%Z end.
@@ -307,8 +310,27 @@ def intmap_bytes_term(out, n):
     return bytes_term(out)
 
 
+def _run_at(b, i):
+    """longest periodic run (period 1..4) starting at i: (period, repeats)"""
+    n = len(b)
+    best = (1, 1)
+    for per in (1, 2, 3, 4):
+        if i + per > n:
+            break
+        unit = b[i:i + per]
+        k = 1
+        j = i + per
+        while b[j:j + per] == unit:
+            k += 1
+            j += per
+        if per * k > best[0] * best[1] and (per == 1 or len(set(unit)) > 1):
+            best = (per, k)
+    return best
+
+
 def bytes_term(b):
-    """bytes -> Gallina term of type `bytes`; long runs as `rp x n`, the rest as literals."""
+    """bytes -> Gallina term of type `bytes`; long runs as `rp x n` (one byte) or `rpb [unit] n`
+    (a repeated 2-4 byte unit, e.g. one multi-byte UTF-8 character), the rest as literals."""
     if len(b) == 0:
         return '[]'
     if len(b) <= 12:
@@ -318,15 +340,18 @@ def bytes_term(b):
     n = len(b)
     lit_start = 0
     while i < n:
-        j = i
-        while j < n and b[j] == b[i]:
-            j += 1
-        if j - i >= 32:
+        per, k = _run_at(b, i)
+        if per * k >= 32:
             if lit_start < i:
                 segs.append(_lit(b[lit_start:i]))
-            segs.append('rp %d %d' % (b[i], j - i))
-            lit_start = j
-        i = j
+            if per == 1:
+                segs.append('rp %d %d' % (b[i], k))
+            else:
+                segs.append('rpb %s %d' % (_lit(b[i:i + per]), k))
+            i += per * k
+            lit_start = i
+        else:
+            i += 1
     if lit_start < n:
         segs.append(_lit(b[lit_start:n]))
     return '(' + ' ++ '.join(segs) + ')'
@@ -790,6 +815,52 @@ def boundary_lengths(ctx):
     return sorted(set(out))
 
 
+WIDE_UNITS = [(2, '\u0436'), (2, '\u00e9'), (3, '\u4e2d'), (3, '\u20ac'), (4, '\U0001f600'), (4, '\U00010000')]
+STR_BOUNDS = [31, 32, 255, 256, 65535, 65536]
+
+
+def wide_strings(rng, quick):
+    """non-ASCII strings whose CHARACTER count and whose UTF-8 BYTE count are swept across every str
+    format boundary (31/32, 255/256, 65535/65536) +-2, for 2-, 3- and 4-byte code points and mixtures:
+    a packer that chooses the format from len(str) instead of len(utf8) is wrong exactly there.
+    Yields (label, python str)."""
+    seen = set()
+
+    def emit(label, st):
+        if st not in seen:
+            seen.add(st)
+            return [(label, st)]
+        return []
+    out = []
+    units = WIDE_UNITS if not quick else [WIDE_UNITS[0], WIDE_UNITS[2], WIDE_UNITS[4]]
+    for w, ch in units:
+        for b in STR_BOUNDS:
+            # character count across the boundary (byte count = w * k is far above it)
+            for k in range(b - 2, b + 3):
+                out += emit('chars%d_w%d' % (b, w), ch * k)
+            # byte count across the boundary (character count far below it): pad with ASCII to hit every length
+            for nbytes in range(b - 2, b + 3):
+                k, pad = divmod(nbytes, w)
+                out += emit('bytes%d_w%d' % (b, w), 'a' * pad + ch * k)
+                if k > 1 and b < 1000:
+                    out += emit('bytes%d_w%d' % (b, w), ch * (k - 1) + 'b' * (pad + w))
+    # mixtures of widths around the small boundaries, character count and byte count on opposite sides
+    for b in (31, 32, 255, 256):
+        for _ in range(6 if quick else 30):
+            target = b + rng.randrange(-2, 3)
+            st = []
+            nb = 0
+            while nb < target:
+                w, ch = rng.choice(WIDE_UNITS + [(1, 'x')])
+                if nb + w > target:
+                    w, ch = 1, 'y'
+                st.append(ch)
+                nb += w
+            rng.shuffle(st)
+            out += emit('mixed%d' % b, ''.join(st))
+    return out
+
+
 def length_values(n):
     """one value of each sized kind with length n (constant payloads keep the literals small)."""
     return [('str', ('str', b'a' * n)), ('bin', ('bin', b'\x00' * n)), ('ext', ('ext', 5, b'\x07' * n)),
@@ -805,7 +876,8 @@ def run(ctx):
     cov['rule'] = (
         '(I) model encode/decode/dispatch vs umsgpack.dumps/unpack/loads/_unpack_dispatch_table, compared inside Coq '
         '(vm_compute): every integer within +-3 of +-2^5,2^7,2^8,2^15,2^16,2^31,2^32,2^63,2^64; str/bin/ext/array/map of every '
-        'length within +-2 of 15,16,31,32,255,256,65535,65536; all 256 first bytes with empty/random/valid tails; every cut '
+        'length within +-2 of 15,16,31,32,255,256,65535,65536; non-ASCII strings (2-, 3-, 4-byte code points and mixtures) with the '
+        'character count and the UTF-8 byte count each swept +-2 across 31/32, 255/256, 65535/65536, alone, as map keys and nested; all 256 first bytes with empty/random/valid tails; every cut '
         'point of every encoding up to 80 bytes (sampled above); random nested values to depth 6; random spec-valid streams in '
         'arbitrary legal formats from the Python twin of Enc (well-formed and with colliding/unhashable keys, invalid UTF-8); '
         'mutated streams; UTF-8 edge cases; float32 patterns. (R) spec_decode reads back real dumps output and accepts the '
@@ -957,6 +1029,28 @@ def run(ctx):
                     add_twin_big(ctx, real, cases, mv, rng, um, note_direct, False)
             elif fam in ('str', 'bin', 'ext', 'arr'):
                 add_twin_big(ctx, real, cases, mv, rng, um, note_direct, True)
+
+    # ---- non-ASCII strings across the str boundaries (character count vs UTF-8 byte count) -------
+    wides = wide_strings(rng, not ctx.thorough())
+    for label, st in wides:
+        u = st.encode('utf-8')
+        isbig = len(u) > 1000
+        ctx.histogram('wide_str', label)
+        ctx.histogram('wide_str_sides', 'chars<=%s<bytes' % next((b for b in (31, 255, 65535) if len(st) <= b < len(u)), 'none'))
+        out = add_value(('str', u), 'wide_str', cuts=not isbig, big=isbig)
+        if out is not None and isbig:
+            for p in sorted(set(list(range(0, 7)) + [len(out) - 1])):
+                add_decode_big(ctx, real, cases, out[:p])
+        add_twin_big(ctx, real, cases, ('str', u), rng, um, note_direct, isbig)
+    # the same strings as map keys, map values and array members (the stream must stay in step after them)
+    smalls = [st for _l, st in wides if len(st.encode('utf-8')) < 300]
+    for i in range(0, len(smalls), 3):
+        grp = smalls[i:i + 3]
+        keys = [('str', g.encode('utf-8')) for g in grp]
+        add_value(('map', [(k, ('int', j)) for j, k in enumerate(keys)]), 'wide_str_key', cuts=(i % 9 == 0))
+        add_value(('arr', [keys[0], ('map', [(('int', 1), keys[-1]), (('arr', [keys[-1]]), keys[0])]), ('int', 7)]),
+                  'wide_str_nested', cuts=(i % 9 == 0))
+        add_twin(('arr', [('map', [(k, k) for k in keys]), ('int', -1)]), 'wide_str_twin')
 
     # ---- all 256 first bytes --------------------------------------------------------------------
     for c in range(256):
